@@ -1,5 +1,5 @@
 """C16 — scalar codec primitives are total, canonical and mutually inverse."""
-AREAS = ["varint", "single"]
+AREAS = ["varint", "single", "msgload"]
 LEVEL = "proof"
 EXPLANATION = (
     "Contracts on the real dump_varint/encode_varint/size_varint/load_varint/decode_varint/_pack_fmt/"
@@ -8,7 +8,9 @@ EXPLANATION = (
     "well-formed (also non-minimal) varint, report the exact bytes consumed, raise ValueError iff ten continuation "
     "bytes and EOFError iff the input ends first; size == encoded length. Lemmas (well-founded induction over the "
     "spec functions): canonical/minimal form, <= 10 bytes and exactly 10 for negatives, VDEC(VARINT(v)) == v, "
-    "zig-zag and sign-extension inverses, injective fixed-width format table.")
+    "zig-zag and sign-extension inverses, injective fixed-width format table. The decode half of the scalar kinds is "
+    "Message._postprocess_single (msgload area): its result equals DECV (sign extension of int32/int64/enum, zig-zag inverse, "
+    "fixed-width unpack, bool, utf-8) for every payload.")
 ASSUMED = [
     "byte-identity of the fixed-width/float encodings with the reference rests on A-STRUCT (struct.pack little-endian layout); "
     "spec functions == reference implementation is validated only by the bounded differential (thorough tier), not proved",
